@@ -308,12 +308,18 @@ class _Builder:
             self.connect(ins, n.id)
             if self.loop_stack:
                 g.edge(n.id, self.loop_stack[-1][1], "break")
+            else:
+                # body fragment analysed on its own: `break` leaves through the secondary exit
+                g.edge(n.id, g.raise_exit, "break")
             return []
         if isinstance(st, ast.Continue):
             n = g._new("stmt", st)
             self.connect(ins, n.id)
             if self.loop_stack:
                 g.edge(n.id, self.loop_stack[-1][0], "loop")
+            else:
+                # body fragment analysed on its own: `continue` is the normal exit (next iteration)
+                g.edge(n.id, g.exit, "continue")
             return []
         # simple statement (incl. nested def/class as opaque statements)
         n = g._new("stmt", st)
